@@ -55,8 +55,10 @@ PROPOSED_KNOWN = [
     dict(property="C09", id="interface-id-under-two-import-names", status="known",
          signature="remap_interface unifies interfaces by identifier and by foreign identity (`remapped`): an interface whose "
                    "identifier is not on the track of its import name (or one foreign interface contributed under two import "
-                   "names of different tracks), while the identifier occurs elsewhere in the multiset, makes two imports "
-                   "share ONE interface - but only when the second name is new at that moment",
+                   "names of different tracks, or the identifier of a nested instance export that also occurs under an import "
+                   "of another track), while the identifier occurs elsewhere in the multiset, makes two imports share ONE "
+                   "interface - but only when the interface is reached through remap_interface (new at that moment), not "
+                   "when it is merged into an existing export",
          witness="agg\t3\tF 0 0 - ; I x:y/z@2.0.0 0 1 f f:0\tF 0 0 - ; I x:y/z@2.0.0 0 1 g f:0\tF 0 0 - ; I - 0 1 h f:0\t3\tx:y/z@2.0.0 0 i:0\tbar 1 i:0\tbar 2 i:0",
          text="an interface whose identifier equals that of an already aggregated interface, contributed under another import "
               "name, is merged into the existing interface and both import names then denote the same interface; if the other "
@@ -191,12 +193,13 @@ def compat_names(a, b):
 
 
 def contributor_ifaces(case_fields):
-    """per contributor: (import name, top-level interface id or None, ids of `use`d interfaces, foreign identity)"""
+    """per contributor: (import name, top-level interface id or None, ids of `use`d interfaces, foreign identity,
+    ids of the interfaces of nested instance exports at any depth)"""
     k = int(case_fields[1]); progs = case_fields[2:2 + k]
     m = int(case_fields[2 + k]); out = []
     for c in case_fields[3 + k:3 + k + m]:
         name, ti, kd = c.split(" ")
-        iid, used = None, []
+        iid, used, nested = None, [], []
         if kd.startswith("i:"):
             ifs = [d.split(" ") for d in progs[int(ti)].split(" ; ") if d.startswith("I ")]
             me = ifs[int(kd[2:])]
@@ -205,7 +208,18 @@ def contributor_ifaces(case_fields):
                 dep = ifs[int(me[4 + 3 * j][1:])]
                 if dep[1] != "-":
                     used.append(dep[1])
-        out.append((name, iid, used, (ti, kd)))
+
+            def walk(x, depth):
+                nu = int(x[2]); p = 3 + 3 * nu
+                for j in range(int(x[p])):
+                    ek = x[p + 2 + 2 * j]
+                    if ek.startswith("i:") and depth < 6:
+                        sub = ifs[int(ek[2:])]
+                        if sub[1] != "-":
+                            nested.append(sub[1])
+                        walk(sub, depth + 1)
+            walk(me, 0)
+        out.append((name, iid, used, (ti, kd), nested))
     return out
 
 
@@ -213,17 +227,21 @@ def shared_id_sig(case_fields, spec_canon):
     """one interface reachable under two import names that are not on one track: the same foreign interface of one
     collection contributed under two such names, or an interface whose identifier is not on the track of its import
     name while that identifier (or a compatible one) occurs elsewhere in the multiset (as identifier, as a `use`d
-    interface, or as an import name)"""
+    interface, or as an import name), or the identifier of a NESTED instance export of one contributor that occurs
+    (nested, used, top-level or as import name) in a contributor of another track"""
     cs = contributor_ifaces(case_fields)
     for a in range(len(cs)):
         for b in range(len(cs)):
             if a == b:
                 continue
-            na, ia, ua, fa = cs[a]; nb, ib, ub, fb = cs[b]
+            na, ia, ua, fa, xa = cs[a]; nb, ib, ub, fb, xb = cs[b]
             if fa == fb and fa[1].startswith("i:") and spec_canon[a] != spec_canon[b]:
                 return True
             if ia and not compat_names(ia, na):
-                if any(x and compat_names(ia, x) for x in [ib, nb] + ub):
+                if any(x and compat_names(ia, x) for x in [ib, nb] + ub + xb):
+                    return True
+            if spec_canon[a] != spec_canon[b]:
+                if any(y and compat_names(x, y) for x in xa for y in [ib, nb] + ub + xb):
                     return True
     return False
 
